@@ -175,3 +175,91 @@ def rows(out, ncols):
     if ncols <= 0 or len(vals) % ncols != 0:
         raise ValueError("list output of %d values is not a multiple of %d columns" % (len(vals), ncols))
     return [tuple(vals[i:i + ncols]) for i in range(0, len(vals), ncols)]
+
+
+# ---------------------------------------------------------------- chroot jail (C10 / C11 / C18 containment)
+
+_JAIL_LIBS = None
+
+
+def _needed_libs():
+    global _JAIL_LIBS
+    if _JAIL_LIBS is None:
+        out = subprocess.run(["ldd", BINARY], stdout=subprocess.PIPE).stdout.decode()
+        libs = []
+        for line in out.splitlines():
+            parts = line.split()
+            for p in parts:
+                if p.startswith("/") and os.path.exists(p):
+                    libs.append(p)
+        _JAIL_LIBS = libs
+    return _JAIL_LIBS
+
+
+def make_jail(populate=None):
+    """Create a chroot jail under the process scratch dir holding the binary, its shared libraries, an
+    empty /home, /cfg and a /dev/null that is a plain file. Returns the jail path. `populate(jail)` may
+    add content (e.g. the fixed tree under /t). Inside the jail every path a generated query can name -
+    `/`, `..`, `~`, absolute paths - is confined to a few dozen small files."""
+    jail = tempfile.mkdtemp(prefix="jail", dir=scratch_root())
+    os.chmod(jail, 0o755)
+    for lib in _needed_libs():
+        dst = jail + lib
+        os.makedirs(os.path.dirname(dst), exist_ok=True)
+        shutil.copy2(os.path.realpath(lib), dst)
+    os.makedirs(jail + "/bin")
+    shutil.copy2(BINARY, jail + "/bin/fselect")
+    os.makedirs(jail + "/home")
+    os.makedirs(jail + "/cfg")
+    os.makedirs(jail + "/dev")
+    open(jail + "/dev/null", "w").close()
+    os.makedirs(jail + "/tmp")
+    if populate:
+        populate(jail)
+    return jail
+
+
+def jail_config(jail, cfg_text):
+    if cfg_text is None:
+        return "/dev/null/fsv-noconfig"
+    h = hashlib.sha1(cfg_text.encode()).hexdigest()[:16]
+    d = os.path.join(jail, "cfg", h, "fselect")
+    if not os.path.exists(d + "/config.toml"):
+        os.makedirs(d, exist_ok=True)
+        with open(d + "/config.toml", "w") as fh:
+            fh.write(cfg_text)
+    return "/cfg/" + h
+
+
+def run_jailed(jail, argv, cwd="/t", cfg=None, tz="UTC", cpu=CPU_LIMIT_S, wall=WALL_LIMIT_S, extra_env=None):
+    env = {
+        "PATH": "/bin", "HOME": "/home", "XDG_CONFIG_HOME": jail_config(jail, cfg), "NO_COLOR": "1",
+        "RUST_BACKTRACE": "0", "TZ": tz, "LANG": "C.UTF-8",
+    }
+    if extra_env:
+        env.update(extra_env)
+
+    def pre():
+        os.chroot(jail)
+        os.chdir(cwd)
+        resource.setrlimit(resource.RLIMIT_CPU, (cpu, cpu + 2))
+        resource.setrlimit(resource.RLIMIT_CORE, (0, 0))
+        os.setsid()
+
+    p = subprocess.Popen(["/bin/fselect"] + list(argv), env=env,
+                         stdin=subprocess.DEVNULL, stdout=subprocess.PIPE, stderr=subprocess.PIPE,
+                         preexec_fn=pre)
+    wall_to = False
+    try:
+        out, err = p.communicate(timeout=wall)
+    except subprocess.TimeoutExpired:
+        wall_to = True
+        try:
+            os.killpg(p.pid, signal.SIGKILL)
+        except OSError:
+            pass
+        out, err = p.communicate()
+    rc = p.returncode
+    sig = -rc if rc < 0 else None
+    cpu_to = sig in (signal.SIGXCPU, signal.SIGKILL) and not wall_to
+    return Res(rc if rc >= 0 else None, out, err, sig, cpu_to, wall_to, list(argv))
